@@ -480,12 +480,127 @@ def extract_skip(ctx, sliced, fired):
     fired['skiplist'] = rw.fired
 
 
+def snode_calls_ix(rw, t, minc):
+    """like snode_calls, but the object may be an indexed array element: prev_nodes[level]->set_next(...) -> snode_set_next(prev_nodes[level], ...)"""
+    def fn(m, a):
+        a = [x for x in a if x != '']
+        return 'snode_%s(%s)' % (m.group('m'), ', '.join([m.group('o')] + a))
+    return rw.call(t, r'(?P<o>\b\w+(?:\[[^\[\]]*\])?)->(?P<m>%s)' % '|'.join(SNODE_METHODS), fn, minc, name='skip node accessor call (object may be an array element)')
+
+
+def extract_skip_unsafe(ctx, sliced, fired):
+    """the non-concurrent half of the skip list: node construction (skip_list_node::create + constructor + get_atomic_next + calc_node_size), fill_prev_array_for_existing_node,
+    internal_extract, unsafe_erase(iterator), end()"""
+    rw = Rewriter('skipunsafe')
+    NC = r'class skip_list_node \{'
+    # ---- node layout and construction ----
+    out = []
+    s = slice_block(SK, r'static size_type calc_node_size\( size_type height \)', within=NC)
+    sliced.append('%s:%d skip_list_node::calc_node_size' % (SK, s.line))
+    t = rw.sub(s.text, r'static size_type calc_node_size\( size_type height \)', 'static size_type snode_calc_node_size(size_type height)', 1, 1, name='sig')
+    t = rw.sub(t, r'(?s)static_assert\(.*?\);', 'RG_NOP();', 0, 1, name='static_assert (compile time) -> RG_NOP')
+    t = rw.sub(t, r'sizeof\(skip_list_node\)', 'sizeof(struct skip_list_node)', 0, name='class name -> struct tag')
+    t = rw.sub(t, r'sizeof\(atomic_node_ptr\)', 'sizeof(raw_node_ptr)', 0, name='std::atomic<node_ptr> -> node pointer')
+    out.append(rw.std(t))
+    s = slice_block(SK, r'atomic_node_ptr& get_atomic_next\( size_type level \)', within=NC)
+    sliced.append('%s:%d skip_list_node::get_atomic_next' % (SK, s.line))
+    t = rw.sub(s.text, r'atomic_node_ptr& get_atomic_next\( size_type level \)', 'static raw_node_ptr* snode_get_atomic_next(struct skip_list_node* self, size_type level)', 1, 1, name='sig (reference result -> pointer)')
+    t = rw.sub(t, r'\batomic_node_ptr\b', 'raw_node_ptr', 2, name='std::atomic<node_ptr> -> node pointer')
+    t = rw.sub(t, r'\bthis\b', 'self', 1, name='this')
+    t = rw.sub(t, r'return arr\[level\];', 'return &arr[level];', 1, 1, name='reference result -> pointer')
+    t = rw.casts(t, 1)
+    out.append(rw.std(t))
+    # the constructor: initialiser list -> assignments in DECLARED member order
+    decl = slice_block(SK, NC).text
+    order = [m.group(1) for m in re.finditer(r'\bsize_type (my_height|my_index_number);', decl)]
+    if sorted(order) != ['my_height', 'my_index_number']:
+        raise ExtractionBreak('skip_list_node: data members changed: %r' % order)
+    s = slice_block(SK, r'skip_list_node\( size_type levels \)', within=NC, ctor=True)
+    sliced.append('%s:%d skip_list_node constructor' % (SK, s.line))
+    txt = s.text
+    mk = cxx2c.mask(txt)
+    b = mk.rindex('{')
+    colon = mk.find(':', mk.index(')'))
+    items = []
+    if 0 <= colon < b:
+        for it in cxx2c.split_args(txt[colon + 1:b]):
+            im = re.match(r'\s*(\w+)\s*\((.*)\)\s*$', it, re.S)
+            if not im or im.group(1) not in order:
+                raise ExtractionBreak('skip_list_node constructor: cannot parse initialiser %r' % it)
+            items.append((im.group(1), im.group(2).strip()))
+    items.sort(key=lambda x: order.index(x[0]))
+    rw.fired['ctor-init-list->assignments(declared order)'] = len(items)
+    out.append('static void snode_ctor(struct skip_list_node* self, size_type levels) {\n' + ''.join('    self->%s = %s;\n' % kv for kv in items) + txt[b + 1:])
+    s = slice_block(SK, r'static skip_list_node\* create\( container_allocator_type& alloc, size_type height \)', within=NC)
+    sliced.append('%s:%d skip_list_node::create' % (SK, s.line))
+    t = rw.sub(s.text, r'static skip_list_node\* create\( container_allocator_type& alloc, size_type height \)', 'static struct skip_list_node* snode_create(size_type height)', 1, 1, name='sig (the allocator object is dropped)')
+    t = rw.sub(t, r'(?s)static_assert\(.*?\);', 'RG_NOP();', 0, 1, name='static_assert (compile time) -> RG_NOP')
+    t = rw.sub(t, r'\bcalc_node_size\(', 'snode_calc_node_size(', 1, 1, name='method')
+    t = rw.sub(t, r'auto\* node = reinterpret_cast<skip_list_node\*>\(allocator_traits::allocate\(alloc, (\w+)\)\);', r'struct skip_list_node* node = (struct skip_list_node*)STUB_allocate(\1);', 1, 1, name='allocator_traits::allocate -> STUB_allocate (bytes)')
+    t = rw.sub(t, r'allocator_traits::construct\(alloc, node, (\w+)\);', r'snode_ctor(node, \1);', 0, 1, name='allocator_traits::construct(node, h) -> the constructor (sliced)')
+    t = rw.sub(t, r'allocator_traits::construct\(alloc, &node->get_atomic_next\((\w+)\), ([^;]*)\);', r'CONSTRUCT_PTR(snode_get_atomic_next(node, \1), \2);', 0, name='allocator_traits::construct(&level pointer, v) -> store through the pointer')
+    t = rw.std(t)
+    t = tag_loops(t, 'create', rw, names=[(r'for \(size_type l = 0', 'levels')])
+    out.append(t)
+    common.write(ctx, 'skipnode.inc', '\n'.join(out) + '\n')
+
+    def body_rules(t):
+        t = snode_calls_ix(rw, t, 0)
+        t = rw.sub(t, r'(?<![&\w] )(?<!&)\bprev_nodes\[([^\]]*)\](?! =)', r'ARR_RD(prev_nodes, \1)', 0, name='array element read')
+        t = rw.asserts(t, 0)
+        t = rw.casts(t, 0)
+        return rw.std(t)
+    # ---- fill_prev_array_for_existing_node ----
+    s = slice_block(SK, r'void fill_prev_array_for_existing_node\( array_type& prev_nodes, node_ptr node \)')
+    sliced.append('%s:%d fill_prev_array_for_existing_node' % (SK, s.line))
+    t = rw.sub(s.text, r'void fill_prev_array_for_existing_node\( array_type& prev_nodes, node_ptr node \)',
+               'void csl_fill_prev_array_for_existing_node(struct csl* self, node_ptr* prev_nodes, node_ptr node)', 1, 1, name='sig (std::array& -> pointer)')
+    t = rw.sub(t, r'\bcreate_head_if_necessary\(\)', 'STUB_create_head_if_necessary(self)', 1, 1, name='callee stub (proved in skip.head)')
+    t = rw.sub(t, r'\bprev_nodes\.fill\((\w+)\);', r'ARR_FILL(prev_nodes, 0, max_level, \1);', 0, name='std::array::fill')
+    t = rw.sub(t, r'\bprev_nodes\[([^\]]*)\] = ([^;]*);', r'ARR_WR(prev_nodes, \1, \2);', 0, name='array element write')
+    t = body_rules(t)
+    t = tag_loops(t, 'fpa', rw, names=[(r'for \(size_type level = snode_height\(node\)', 'levels'), (r'while \(snode_next\(prev', 'walk')])
+    common.write(ctx, 'skipfpa.inc', t + '\n')
+    # ---- end(), internal_extract, unsafe_erase(iterator) ----
+    out = []
+    s = slice_block(SK, r'const_iterator end\(\) const')
+    sliced.append('%s:%d end' % (SK, s.line))
+    t = rw.sub(s.text, r'const_iterator end\(\) const', 'static node_ptr csl_end(struct csl* self)', 1, 1, name='sig (iterator -> the node it holds)')
+    t = rw.sub(t, r'\bconst_iterator\(', 'ITER(', 1, 1, name='iterator construction from a node')
+    out.append(rw.std(t))
+    s = slice_block(SK, r'std::pair<node_ptr, node_ptr> internal_extract\( const_iterator it \)')
+    sliced.append('%s:%d internal_extract' % (SK, s.line))
+    t = rw.sub(s.text, r'std::pair<node_ptr, node_ptr> internal_extract\( const_iterator it \)', 'struct npair csl_internal_extract(struct csl* self, node_ptr it)', 1, 1, name='sig (iterator -> the node it holds)')
+    t = rw.sub(t, r'std::pair<node_ptr, node_ptr> result\(nullptr, nullptr\);', 'struct npair result = {NULL, NULL};', 1, 1, name='std::pair -> struct')
+    t = rw.sub(t, r'array_type prev_nodes;', 'node_ptr prev_nodes[max_level];', 1, 1, name='std::array -> C array')
+    t = rw.sub(t, r'(?<![\w.>])end\(\)', 'csl_end(self)', 1, name='method')
+    t = rw.sub(t, r'\bit\.my_node_ptr\b', 'it', 1, name='iterator -> the node it holds')
+    t = rw.sub(t, r'(?<![\w.>])fill_prev_array_for_existing_node\(', 'csl_fill_prev_array_for_existing_node(self, ', 1, 1, name='method')
+    t = rw.atomics(t, ['my_size'], 0)
+    t = rw.sub(t, r'(?<![\w.>])my_size\b', 'self->my_size', 0, name='field')
+    t = body_rules(t)
+    t = rw.number_sites(t, 'extract', by_kind=True)
+    t = tag_loops(t, 'extract', rw, names=[(r'for \(size_type level = 0', 'unlink')])
+    out.append(t)
+    s = slice_block(SK, r'iterator unsafe_erase\( iterator pos \)')
+    sliced.append('%s:%d unsafe_erase(iterator)' % (SK, s.line))
+    t = rw.sub(s.text, r'iterator unsafe_erase\( iterator pos \)', 'node_ptr csl_unsafe_erase(struct csl* self, node_ptr pos)', 1, 1, name='sig (iterator -> the node it holds)')
+    t = rw.sub(t, r'std::pair<node_ptr, node_ptr> extract_result = internal_extract\(pos\);', 'struct npair extract_result = ERASE_EXTRACT(self, pos);', 1, 1, name='std::pair -> struct; callee (proved in skip.extract)')
+    t = rw.sub(t, r'\bdelete_value_node\(', 'STUB_delete_value_node(self, ', 0, name='callee stub (node disposal)')
+    t = rw.sub(t, r'(?<![\w.>])end\(\)', 'csl_end(self)', 0, name='method')
+    out.append(rw.std(t))
+    common.write(ctx, 'skipextract.inc', out[0] + '\n' + out[1] + '\n')
+    common.write(ctx, 'skiperase.inc', out[0] + '\n' + out[2] + '\n')
+    fired['skipunsafe'] = rw.fired
+
+
 def build(ctx):
     sliced, fired = extract(ctx)
     extract_solist(ctx, sliced, fired)
     extract_range(ctx, sliced, fired)
     extract_find(ctx, sliced, fired)
     extract_skip(ctx, sliced, fired)
+    extract_skip_unsafe(ctx, sliced, fired)
     C = os.path.join(HERE, 'c12.c')
     jobs = [
         Job('rev.bits', C, 'h_reverse', route='LW', unwind=10, target='machine_reverse_bits<size_t> + reverse_byte + byte_table', source=MH),
@@ -516,6 +631,13 @@ def build(ctx):
             target='concurrent_skip_list::internal_find_position (%s overload) + skip_list_node::next/height (any level, any list, concurrent inserts)' % nm, source=SK)
         for nm in ('key', 'node')
     ] + [
+        Job('skip.node_create', C, 'h_node_create', route='LC', loops=True, nloops=1, defines=['C12_SKIP', 'SK_NODE'], timeout=600,
+            target='skip_list_node::create + constructor + get_atomic_next + calc_node_size (every height 1..max_level, real layout)', source=SK),
+        Job('skip.extract.prev_array', C, 'h_fpa', route='LC', loops=True, nloops=2, defines=['C12_SKIP', 'SK_EXT', 'SK_FPA'], timeout=1200, solver='cadical',
+            target='concurrent_skip_list::fill_prev_array_for_existing_node + skip_list_node::next/height (lists of any length)', source=SK),
+        Job('skip.extract.unlink', C, 'h_extract', route='LC', loops=True, nloops=1, defines=['C12_SKIP', 'SK_EXT', 'SK_UNLINK'], timeout=1200, solver='cadical',
+            target='concurrent_skip_list::internal_extract + end + skip_list_node::next/set_next/height (lists of any length, one arbitrary level)', source=SK),
+        Job('skip.erase', C, 'h_erase', route='LF', defines=['C12_SKIP', 'SK_EXT', 'SK_ERASE'], target='concurrent_skip_list::unsafe_erase(iterator)', source=SK),
     ] + [
         Job('skip.insert_node.level0.' + nm, C, 'h_skip_insert', route='RG', loops=True, nloops=5, defines=['C12_SKIP', 'SK_INS', 'SK_L0', 'MULTI=%d' % mv], timeout=900, unwind=10,
             target='concurrent_skip_list::internal_insert_node + found + skip_list_node::set_next/set_index_number: the level-0 link (membership) (any number of threads; allow_multimapping == %s)' % ('true' if mv else 'false'), source=SK)
@@ -551,22 +673,33 @@ def build(ctx):
             'stub WITHOUT a proof of its contract: fill_prev_curr_arrays inside skip.insert_node (per level: prev is the head or compares before the key, curr is null or does not) - its loop over the levels is not under contract yet',
             'node factories / disposal (create_node, create_dummy_node, destroy_node, create_head_node, delete_node) and the hash / key-equality functors (equal keys hash alike; the functor is a function of the key)',
             'reverse_bits inside set_midpoint as an uninterpreted function with reverse_bits(b) == dummy key of bucket b', 'std::minstd_rand yields values in [1, 2^31-2]',
+            'skip list, non-concurrent operations (jobs skip.extract.*, skip.erase): per-index list of up to 4095 elements (node i IS the i-th node in level-0 order; keys are attributes of the index, sorted along it); '
+            'the well-formedness precondition (each level\'s chain is exactly the nodes of that height, in level-0 order) is supplied as instances at the use sites for the node extracted and two arbitrary witness nodes; '
+            'the slots of ONE arbitrary level are real memory, the slots of the other levels are an uninterpreted function of (node, level) as they were on entry and stores to them are checked and dropped '
+            '(levels exchange no data: a value read at level l is stored at level l); unsafe_* operations run without concurrent operations (documented requirement of the interface)',
+            'stubs with the contract proved elsewhere (skip list, non-concurrent half): fill_prev_array_for_existing_node inside skip.extract.unlink (skip.extract.prev_array), internal_extract inside skip.erase (skip.extract.unlink), '
+            'create_head_if_necessary inside skip.extract.prev_array (skip.head); allocator_traits::allocate yields a fresh block of the requested size with arbitrary contents (skip.node_create)',
         ],
         'drops': ['template static member table -> C array', 'constexpr', 'std::atomic -> ATOMIC_*_AT sites', 'static_assert -> RG_NOP', 'std::pair / braced returns -> C structs', 'comparator objects -> a tag (less / not_greater)',
-                  'std::array position arrays of the skip list -> accessor macros ARR_RD/ARR_WR/ARR_REF', 'reference members/parameters -> pointers', 'iterator objects -> the node they hold'],
-        'not_decided': ['quick tier: the upper-level links of skip list internal_insert_node (jobs skip.insert_node.upper.*, 5-10 min each) run in the thorough tier only', 'skip list: fill_prev_curr_arrays (the descent over the levels) is used through an unproved contract; the index_number tie-break among equal keys at upper levels of a multi skip list (order of equal keys across levels); '
-                        'lookups of the skip list (internal_find_multi/unique, lower/upper_bound, equal_range) and its iterator/range; facts about upper levels are proved for ONE arbitrary level at a time with the other levels of the position arrays fixed to (head, null)',
+                  'std::array position arrays of the skip list -> accessor macros ARR_RD/ARR_WR/ARR_REF/ARR_FILL', 'allocator_traits::construct(node, h) -> the sliced constructor; construct(&level pointer, v) -> store through the pointer; the allocator object is dropped', 'reference members/parameters -> pointers', 'iterator objects -> the node they hold'],
+        'not_decided': ['quick tier: the upper-level links of skip list internal_insert_node (jobs skip.insert_node.upper.*, 5-10 min each) run in the thorough tier only', 'skip list: fill_prev_curr_arrays (the descent over the levels) is used through an unproved contract (sliced into skipfill.inc, no job yet); the index_number tie-break among equal keys at upper levels of a multi skip list (order of equal keys across levels); '
+                        'lookups of the skip list (internal_find_multi/unique, internal_get_bound = lower/upper_bound, internal_equal_range incl. its jump to the full height of every equal node, internal_count) and its iterator/range; facts about upper levels are proved for ONE arbitrary level at a time with the other levels of the position arrays fixed to (head, null)',
+                        'skip list insert(node_type&&) / internal_insert_node precondition side: that an upper level pointer of the node being inserted is null (as skip.node_create and skip.extract.unlink leave it) until this insert writes it, and is written with a valid successor before the CAS of that level, is not yet an obligation of skip.insert_node.*; '
+                        'node handles (unsafe_extract wrapper, node_handle_accessor), internal_merge, internal_erase(key) / unsafe_erase(first, last) loops, clear(), internal_copy / move / swap of the skip list; '
+                        'skip.extract.*: one arbitrary level at a time (cross-level data flow is excluded by construction of the model, see trusted base); the composition "every level\'s chain is again exactly the remaining nodes" is per slot and per witness node (ghost indices), the induction over the chain is a written argument',
                         'unordered: internal_equal_range encloses EVERY equivalent element (contiguity of equal keys in multi containers); the split point of a range lies at or before the range end (needs the reverse_bits/get_parent arithmetic of set_midpoint); '
                         'unsafe_erase/extract/merge/rehash-by-copy paths; reserve() (float loop); internal_insert_value / emplace wrappers (node ownership after a failed insert: only the flag and the remaining_node are decided)',
                         'termination / lock-freedom of the retry loops (only: a step moves strictly forward; the linking CAS expects the value last read)',
                         'regular() discards hash bit 63: two hashes differing only there share an order key (harmless through the key-equality re-check)',
                         'weak memory: all atomics are taken as sequentially consistent (the published node\'s fields are written before the releasing CAS; not modelled)'],
         'assumptions': ['bucket counts up to 2^62', 'skip list keys: Key = uint16_t with std::less (template instantiation); unordered keys: size_t with an arbitrary hash/equality functor pair',
-                        'lists of fewer than 2^8 distinguishable positions per obligation (ghost ranks)'],
+                        'lists of fewer than 2^8 distinguishable positions per obligation (ghost ranks)', 'skip.extract.*: skip lists of up to 4095 elements, node handles = index + 1 (16 bit)'],
     }
 
 
 def replay(ctx, jobname, failure):
+    if os.environ.get('C12_SKIP_NATIVE'):      # mutation testing: the native build of libtbb takes minutes under load
+        return {'reproduced': False, 'detail': 'native replay skipped (C12_SKIP_NATIVE)'}
     exe = native.build([os.path.join(HERE, 'c12_replay.cpp')], os.path.join(ctx.work, 'c12_replay'), flags=['-fno-access-control'], link_tbb=True)
     rc, out = native.run([exe, jobname], timeout=120)
     rep = {'cmd': exe + ' ' + jobname, 'rc': rc, 'output': out[-1500:], 'reproduced': False, 'detail': 'native recipes found no failing sequence'}
